@@ -1,4 +1,4 @@
-"""C16 -- files survive rope byte-for-byte apart from the intended edit (clauses R16.1-R16.7)."""
+"""C16 -- files survive rope byte-for-byte apart from the intended edit (clauses R16.1-R16.8)."""
 from __future__ import annotations
 
 import ast
@@ -52,6 +52,7 @@ def check(ctx, res) -> None:
     _check_main(ctx, res)
     undo_newline_rule(ctx, res, "R16.6")
     module_header_rule(ctx, res, "R16.7")
+    first_import_line_rule(ctx, res, "R16.8")
 
 
 def _check_main(ctx, res) -> None:
@@ -333,3 +334,20 @@ def module_header_rule(ctx, res, rule: str) -> None:
                 "MoveGlobal takes every comment line directly above the definition along with it, the module's coding line included when the definition "
                 "follows it: the cookie ends up in the destination and the source module, now without it, is rewritten as UTF-8 although it was latin-1",
                 function=f.qualname)
+
+
+def first_import_line_rule(ctx, res, rule: str) -> None:
+    """R16.8 (shared with C07): where a new import goes in a module that has none yet is computed from the module
+    (header comments, docstring, first statement) -- never a constant line number, which puts it above the shebang and
+    the coding line."""
+    idx = ctx.idx
+    f = idx.need_func("rope.refactor.importutils.module_imports.ModuleImports._get_new_import_lineno")
+    rets = [r for r in walk_local(f.node) if isinstance(r, ast.Return) and r.value is not None]
+    if not rets:
+        raise AnalysisError("anchor=ModuleImports._get_new_import_lineno: no return")
+    consts = [r for r in rets if isinstance(r.value, ast.Constant)]
+    res.add(rule, "_get_new_import_lineno|computed", not consts, f"{f.unit.rel}:{(consts[0] if consts else rets[0]).lineno}",
+            "the line for a new import is computed from the module on every path" if not consts else
+            f"_get_new_import_lineno answers the constant line {consts[0].value.value} for a module without imports: the import is inserted above the shebang, the "
+            "coding line (which then slides below line 2 and is no longer honoured: a latin-1 file is rewritten as UTF-8) and the docstring",
+            function=f.qualname)
